@@ -66,6 +66,13 @@ def base_docs(tier):
                    ['preamble', 'dos\r\nwith\nbare lf\r\n', None, 0, 'dos',
                     None],
                    ['file', None], ['meta', {'p': 's'}, None]]))
+    # a producer that declares no encoding anywhere (the 'drop:main-encoding'
+    # variation applies): all-ASCII contents, every section kind
+    rich.append(
+        ('utf-8', [P('plain ascii\n', None, 0), ['meta', {'k': 'v'}, None],
+                   ['change', None], ['meta', {'id': 'c'}, None],
+                   ['file', None], ['meta', {'path': 'f'}, None],
+                   ['diff', b'-a\n+b\n', None, None, None]]))
     for root, calls in rich:
         docs.append((root, calls, True))
     return docs
